@@ -590,6 +590,8 @@ func (g *Gen) scenario(p *Profile) {
 			g.foreignBlock(true)
 		case "badblock":
 			g.badBlock()
+		case "badswitch":
+			g.refusedSwitch()
 		case "walk":
 			cl := g.confirmedList()
 			b := cl[g.r.Intn(len(cl))]
